@@ -229,6 +229,21 @@ def run(ctx):
     for s in rng.sample(seqs, ctx.n(30, len(seqs))):
         cases.append({'ids': [s], 'version': 33, 'edition': 4, 'nsub': rng.choice([1, 2]), 'compressed': rng.random() < 0.3,
                       'forced': '-', 'seed': rng.randrange(1, 2 ** 32), 'maxrep': 2, 'features': {'table-d-sequence': 1}, 'shared': None})
+    # a marker operator as the only member of a replication (a one-statement loop body) while a width / scale /
+    # reference / string-width modifier is in force: the state recorded for the marker must reach every repetition
+    for k in range(ctx.n(16, 120)):
+        m = rng.choice([2, 3])
+        op = rng.choice([223, 224, 225, 232])
+        on = rng.choice([201129, 201130, 201132, 202129, 202130, 207001, 207002])
+        els = [rng.choice([12001, 10004, 11001, 11002, 7001, 13003]) for _ in range(m)]
+        sig = [8023] if op == 224 else [8024] if op == 225 else []
+        rep = [101000 + m] if k % 3 else [101000, 31001]
+        ids = els + [op * 1000, 236000, 101000 + m, 31031] + sig + [on] + rep + [op * 1000 + 255, on // 1000 * 1000]
+        forced = '31031=' + '.'.join(['0'] * m) + ('' if k % 3 else ';31001=%d' % m)
+        comp = rng.random() < 0.3
+        cases.append({'ids': ids, 'version': 33, 'edition': 4, 'nsub': rng.choice([1, 2]), 'compressed': comp,
+                      'forced': forced, 'seed': rng.randrange(1, 2 ** 32), 'maxrep': 3,
+                      'features': {'marker-replicated': 1, 'marker-under-%d' % (on // 1000): 1}, 'shared': comp})
     for c in cases:
         if c.get('shared') is None:
             c['shared'] = c['compressed']
